@@ -5,7 +5,7 @@ var Values = []string{"abc", "a b", "a,b:c", "x*y", "日本語", "foo/bar/baz", 
 var IFSs = []struct {
 	V   string
 	Set bool
-}{{"", false}, {" \t\n", true}, {", ", true}, {":", true}, {"", true}, {"、 ", true}}
+}{{"", false}, {" \t\n", true}, {", ", true}, {":", true}, {"", true}, {"、 ", true}, {"*", true}}
 
 func Words(op string, value string) [][]WP {
 	switch op {
@@ -21,6 +21,8 @@ func Words(op string, value string) [][]WP {
 			{{Kind: "lit", Text: "[a"}, {Kind: "dq", Text: "-"}, {Kind: "lit", Text: "c]"}}, {{Kind: "lit", Text: "["}, {Kind: "sq", Text: "!"}, {Kind: "lit", Text: "a]"}},
 			{{Kind: "lit", Text: "[a"}, {Kind: "sq", Text: "]"}, {Kind: "lit", Text: "b]"}}, {{Kind: "lit", Text: "["}, {Kind: "dq", Text: "^"}, {Kind: "lit", Text: "a]"}},
 			{{Kind: "lit", Text: "[!"}, {Kind: "sq", Text: "!"}, {Kind: "lit", Text: "]"}},
+			// "$@" joined into one pattern: the separator is quoted text as well
+			{{Kind: "dqat"}}, {{Kind: "lit", Text: "?"}, {Kind: "dqat"}},
 			// a quoted backslash is an ordinary character of the pattern
 			{{Kind: "sq", Text: `\`}, {Kind: "lit", Text: "*"}}, {{Kind: "lit", Text: "*"}, {Kind: "sq", Text: `\c`}}, {{Kind: "lit", Text: "*"}, {Kind: "dq", Text: `\`}}, {{Kind: "sq", Text: `a\`}},
 		}
@@ -68,6 +70,7 @@ func Params() []Param {
 	for _, n := range []string{"#", "?", "-", "$", "!", "0"} {
 		ps = append(ps, Param{Name: n}, Param{Name: n, Args: []string{"a", "b"}})
 	}
+	ps = append(ps, Param{Name: "v", Set: true, Value: "xaZZb", Args: []string{"a", "b"}}, Param{Name: "v", Set: true, Value: "xa*b", Args: []string{"a", "b"}})
 	// $- without any option letter and an empty $0: set but null
 	ps = append(ps, Param{Name: "-", Glob: true}, Param{Name: "0", Empty: true}, Param{Name: "v", Set: true, Value: "abc", Glob: true})
 	return ps
